@@ -219,6 +219,11 @@ def _structural_vertices(chk, w, deg, want1, want2):
                found=str({k: str(parts[k])[:120] for k in ("energy", "inv")}))
 
 
+def obj_init_(v):
+    from ..symex import obj_init
+    return obj_init(v)
+
+
 def run(chk):
     repo = chk.repo
     w = repo.module(W)
@@ -387,6 +392,55 @@ def run(chk):
         chk.ob("R19.3", W, "winding_order_ccw", "every return is that sorted order (three points still have two orientations: an early return of the "
                "given order leaves about half of the triangular facets clockwise)", not others, node=others[0].node if others else None,
                fingerprint="winding:all-returns", found=[f"line {r.lineno}: return {str(r.value)[:80]}" for r in others][:2])
+        # ... about the first point: the angle of point x is that of points[x] - points[0] (direction row x - 1 of points[1:] - points[0],
+        # normalised or not), every other point is sorted, and point 0 leads the result
+        pts_ = P.name(wv.param_names[0])
+        none_ = P.atom(("const", None))
+        rest = P.atom(("sub", pts_, (P.atom(("slice", P.const(1), none_, none_)),)))
+        first = P.atom(("sub", pts_, (P.const(0),)))
+        okdir = okidx = okall = False
+        if lam:
+            body = lam[0][2].as_atom()
+            if body and call_name(body) == "arctan2":
+                rc = row_col(body[2][0])
+                ra_ = body[2][0].as_atom()
+                # the matrix whose rows are indexed
+                mat = ra_[1] if ra_ and ra_[0] == "sub" and len(ra_[2]) == 2 else (ra_[1].as_atom()[1] if ra_ and ra_[0] == "sub" and ra_[1].as_atom() else None)
+                rowi = ra_[2][0] if ra_ and ra_[0] == "sub" and len(ra_[2]) == 2 else (ra_[1].as_atom()[2][0] if ra_ and ra_[0] == "sub" and ra_[1].as_atom() else None)
+                if mat is not None:
+                    diff = rest - first
+                    okdir = mat == diff or (len(mat.n) == 1 and len(mat.d) == 1 and (mat * P(mat.d)) == diff) or \
+                        (mat.key().startswith(f"({diff})/(numpy.linalg.norm({diff}, axis=1)"))
+                    okidx = rowi is not None and rowi.key().startswith("-1 + (larg 0 ")
+        srt = [a for a in find_atoms(wv.returns[-1].value, lambda t: t[0] == "call" and call_name(t) == "sorted" and t[2])]
+        if srt:
+            it_ = srt[0][2][0].key()
+            shape0 = f"{pts_}.shape[0]"
+            okall = it_ in (f"list(range(1, {shape0}))", f"range(1, {shape0})", f"list(range(1, len({pts_})))", f"range(1, len({pts_}))")
+        ra0 = wv.returns[-1].value.as_atom()
+        oklead = bool(ra0 and ra0[0] == "concat" and len(ra0[1]) == 2 and ra0[1][0].key() == "(tuple (0))" and call_name(ra0[1][1].as_atom() or ()) == "sorted")
+        chk.ob("R19.3", W, "winding_order_ccw", "the angle of point x is that of points[x] - points[0] (row x - 1 of the directions), all points 1 .. N-1 are "
+               "sorted and point 0 leads the order", okdir and okidx and okall and oklead, fingerprint="winding:about-first",
+               found=f"directions {okdir}, row index {okidx}, sorted range {okall}, leading 0 {oklead}")
+        # project_to_plane: the points are projected into the plane before the in-plane axes are taken from them
+        pd = {k[1]: v for k, v in pp.defs.items()}
+        pts2, nrm = P.name(pp.param_names[0]), P.name(pp.param_names[1])
+        proj = pd.get("projected_points")
+        want_proj = pts2 - P.atom(("call", P.name("numpy.outer"), (P.atom(("call", P.name("numpy.dot"), (pts2, nrm))), nrm)))
+        want_proj2 = pts2 - P.atom(("call", P.name("numpy.outer"), (P.atom(("matmul", (pts2, nrm))), nrm)))
+        chk.ob("R19.3", W, "project_to_plane", "the points are projected into the plane: p - (p . n) n", proj is not None and (proj == want_proj or proj == want_proj2),
+               fingerprint="projection", expected=str(want_proj), found=str(proj)[:160])
+        av = pd.get("a_vector")
+        okav = False
+        if av is not None and av.is_poly() and len(av.n) == 2 and sorted(av.n.values()) == [-1, 1]:
+            rows_ = []
+            for mono, c in av.n.items():
+                at = mono[0][0] if len(mono) == 1 and mono[0][1] == 1 else None
+                if at and at[0] == "sub" and at[1].key() == "$projected_points" and len(at[2]) == 1 and at[2][0].const_value() is not None:
+                    rows_.append(int(at[2][0].const_value()))
+            okav = len(rows_) == 2 and rows_[0] != rows_[1]
+        chk.ob("R19.3", W, "project_to_plane", "the first in-plane axis is the difference of two of the projected points (a vector in the plane)", okav,
+               fingerprint="in-plane-axis", expected="projected[i] - projected[j]", found=str(av)[:120])
         tv = w.ev("order_and_triangulate_polygons", opaque={"facet", "N"})
         chk.saw(W, "order_and_triangulate_polygons")
         t = [e for e in tv.events if e.kind == "assign" and e.name == "t"]
@@ -443,6 +497,65 @@ def run(chk):
         okf = bool(call) and [x.key() for x in call[0].extra["args"]] == ["self.wulff_vertices", "self.wulff_facets", "self.facet_normals"]
         chk.ob("R19.3", W, "WulffConstruction._fix_wulff_mesh", "ordering uses the construction's vertices, facet lists and facet normals", okf)
     if chk.want("R19.4"):
+        # the construction runs its four stages, each once, unconditionally and in order: dual points, their hull, the dual of the hull, the mesh
+        iv = w.ev("WulffConstruction.__init__")
+        chk.saw(W, "WulffConstruction.__init__")
+        stages = ["_populate_duals", "_construct_dual_space_hull", "_extract_wulff_from_dual_mesh", "_fix_wulff_mesh"]
+        seen = [e.target.key().split(".")[-1] for e in iv.events if e.kind == "call" and e.target is not None and e.target.key().startswith("self._")
+                and e.target.key().split(".")[-1] in stages and not e.guards and not e.loops]
+        chk.ob("R19.4", W, "WulffConstruction.__init__", "the constructor runs dual points -> dual hull -> dual of the hull -> mesh repair, each stage once and "
+               "unconditionally, in that order", seen == stages, fingerprint="stages", expected=stages, found=seen)
+        # pruning compares true pairwise squared distances; the three results of the triangulation go to the attributes they are named after;
+        # an empty facet (and only an empty one) stays empty; every fan of triangles is kept together with one facet label per triangle
+        pr = w.ev("prune_degenerate_points")
+        chk.saw(W, "prune_degenerate_points")
+        pp_ = P.name(pr.param_names[0])
+        none_ = P.atom(("const", None))
+        ds = [obj_init_(e.value) for e in pr.events if e.kind == "assign" and e.name == "dist_sq"]
+        col = P.atom(("sub", pp_, (P.atom(("slice", none_, none_, none_)), P.name("numpy.newaxis"))))
+        want_d = [P.atom(("call", P.name("numpy.sum"), ((col - pp_) ** 2,), (("axis", P.const(k)),))) for k in (2, -1)]
+        chk.ob("R19.4", W, "prune_degenerate_points", "coincident vertices are found by the squared distance of every pair: sum((p_i - p_j)^2) over the coordinates",
+               bool(ds) and any(ds[0] == w_ for w_ in want_d), fingerprint="pair-distance", expected=str(want_d[0]), found=str(ds[0])[:160] if ds else None)
+        fx = w.ev("WulffConstruction._fix_wulff_mesh")
+        chk.saw(W, "WulffConstruction._fix_wulff_mesh")
+        got = {}
+        for e in fx.events:
+            if e.kind == "store" and e.target.key() in ("self.wulff_facets", "self.wulff_triangles", "self.wulff_triangle_indices"):
+                for a in find_atoms(e.value, lambda a: a[0] == "sub" and len(a[2]) == 1 and a[2][0].const_value() is not None
+                                    and call_name(a[1].as_atom() or ()) == "order_and_triangulate_polygons"):
+                    got[e.target.key()] = int(a[2][0].const_value())
+                if seq_items(e.value) is None and e.value.as_atom() and e.value.as_atom()[0] == "name":
+                    got[e.target.key()] = e.value.key()
+        chk.ob("R19.4", W, "WulffConstruction._fix_wulff_mesh", "ordered facets, triangles and triangle labels are results 0, 1, 2 of the triangulation, each "
+               "stored under its own name", got == {"self.wulff_facets": 0, "self.wulff_triangles": 1, "self.wulff_triangle_indices": 2}, fingerprint="mesh-results",
+               found=str(got))
+        of = w.ev("ordered_facets")
+        eapp = [e for e in of.events if e.kind == "call" and e.target is not None and e.target.key().endswith(".append") and e.extra.get("args")]
+        empties = [e for e in eapp if e.extra["args"][0].key() == "(tuple ())"]
+        fulls = [e for e in eapp if e.extra["args"][0].key() != "(tuple ())"]
+
+        def len_zero(c):
+            a = c.as_atom()
+            return bool(a and a[0] == "eq" and {a[1].key(), a[2].key()} & {"0"} and "len(" in c.key())
+        okpol = all(any(len_zero(c) and pol for c, pol in e.guards) for e in empties) and all(any(len_zero(c) and not pol for c, pol in e.guards) for e in fulls) \
+            if empties else True
+        chk.ob("R19.4", W, "ordered_facets", "a facet without vertices stays empty and every other facet is ordered (the emptiness test is not inverted)",
+               okpol and bool(fulls), fingerprint="empty-facet-test", found=[f"{'' if p else 'not '}{str(c)[:50]}" for e in eapp for c, p in e.guards][:4])
+        tv4 = w.ev("order_and_triangulate_polygons", opaque={"facet", "N", "t"})
+        tapp = [e for e in tv4.events if e.kind == "call" and e.target is not None and e.target.key().endswith(".append") and "triangles" in e.target.key()]
+        lab = [e for e in tv4.events if (e.kind == "assign" and e.name == "facet_indices" and e.extra.get("aug") == "Add") or
+               (e.kind == "call" and e.target is not None and e.target.key().endswith(".extend") and "facet_indices" in e.target.key())]
+        oklab = False
+        if len(tapp) == 1 and len(lab) == 1 and tapp[0].loops and lab[0].loops and tapp[0].loops[-1].k == lab[0].loops[-1].k:
+            d_ = lab[0].extra.get("delta") if lab[0].kind == "assign" else lab[0].extra["args"][0]
+            da = d_.as_atom() if d_ is not None else None
+            i_ = tapp[0].loops[-1].index
+            oklab = bool(da and da[0] == "repeat" and seq_items(da[1]) is not None and len(seq_items(da[1])) == 1 and i_ is not None
+                         and seq_items(da[1])[0].key() == i_.key() and da[2].key() == f"{tapp[0].extra['args'][0]}.shape[0]")
+        chk.ob("R19.4", W, "order_and_triangulate_polygons", "every facet's fan is appended together with one label (the facet's number) per triangle of the fan",
+               oklab, fingerprint="fan-labels", expected="triangles.append(t); facet_indices += [i] * t.shape[0]",
+               found=[str(e.value)[:80] for e in lab][:1])
+
         r19_4(chk, w)
     chk.assume("that the hull's simplices are the right ones, degeneracies and volume are geometry and are not decided")
     chk.assume("ConvexHull combinatorics are invariant under uniform scaling (library contract); the pruning threshold is a ratio of the shape size (scale free since D40)")
